@@ -77,4 +77,9 @@ def parseSecretsCfg (cfg : ParseCfg) (secrets : List Int) : Outcome (List (List 
   if secrets.length < 2 then .err "too-small" else
   parseLoop cfg secrets (2 * secrets.length + 2) 0 true 0 []
 
+namespace Ops16
+/-- the parser configuration of the tree as it is now -/
+def curParse : ParseCfg := { rejectNegative := true, keepTrailing := true }
+end Ops16
+
 end TssVerif
